@@ -24,7 +24,9 @@ TagCfgs == {"default", "custom", "multi"}
 \* marker: a valid converter followed by a marker on a struct (fails while extracting converters)
 \* format: a converter whose output cannot be formatted (name "Bad-Impl"), in an output file of its own
 \* ctxmissing3: an extend function with three context parameters none of which is available
-Faults == {"directive", "signature", "conversion", "unknown2", "enumkeys2", "fieldtargets2", "marker", "format", "ctxmissing3"}
+\* twopkgs: two packages, each with a faulty converter (a directive fault in one, a signature fault in the other): which one is
+\* reported must not depend on the order of the package patterns; twomarkers: the same with a misplaced marker in each package
+Faults == {"directive", "signature", "conversion", "unknown2", "enumkeys2", "fieldtargets2", "marker", "format", "ctxmissing3", "twopkgs", "twomarkers"}
 GenVariants == {"root-dots", "flag-dots", "root-listed", "root-reversed", "root-dup"}
 Ops == {[op |-> "gen", v |-> x] : x \in GenVariants} \cup {[op |-> "edit"], [op |-> "break"], [op |-> "bloat"], [op |-> "scramble"], [op |-> "delete"], [op |-> "guard"]}
         \cup {[op |-> "bad", k |-> k] : k \in Faults} \cup {[op |-> "unbad"]}
